@@ -195,13 +195,13 @@ theorem push_refines {h : Heap} {l : Lid} {xs : List Node} {n : Node}
 /-- **list_extract pops the head**: returns NULL on an empty list, else the first node, whose link is
     cleared (immediately reusable).  The tail is left stale when the list becomes empty. -/
 theorem extract_refines {h : Heap} {l : Lid} {xs : List Node} (hl : IsList h l xs) :
-    match xs with
-    | [] => extract h l = (h, none)
-    | x :: r => ∃ h', extract h l = (h', some x) ∧ IsList h' l r ∧ h'.next x = none ∧ Frame h h' l [x] := by
+    (xs = [] → extract h l = (h, none)) ∧
+    (∀ x r, xs = x :: r →
+      ∃ h', extract h l = (h', some x) ∧ IsList h' l r ∧ h'.next x = none ∧ Frame h h' l [x]) := by
   have hh := isList_head hl
-  cases xs with
-  | nil => simp only [List.head?_nil] at hh; simp [extract, hh]
-  | cons x r =>
+  refine ⟨fun e => ?_, fun x r e => ?_⟩
+  · subst e; simp only [List.head?_nil] at hh; simp [extract, hh]
+  · subst e
     simp only [List.head?_cons] at hh
     have hnx : h.next x = r.head? := isList_next (pre := []) hl
     have hnd := List.nodup_cons.1 hl.nodup
@@ -230,14 +230,13 @@ theorem iterate_refines {h : Heap} {l : Lid} {xs : List Node} (hl : IsList h l x
 /-- **list_iterator_next** steps over the current node and returns the one after it; past the end it
     stays where it is and returns NULL -/
 theorem iteratorNext_refines {h : Heap} {l : Lid} {pre post : List Node} (hl : IsList h l (pre ++ post)) :
-    iteratorNext h ⟨linkAfter l pre, l⟩ =
-      match post with
-      | [] => (⟨linkAfter l pre, l⟩, none)
-      | c :: r => (⟨linkAfter l (pre ++ [c]), l⟩, r.head?) := by
+    (post = [] → iteratorNext h ⟨linkAfter l pre, l⟩ = (⟨linkAfter l pre, l⟩, none)) ∧
+    (∀ c r, post = c :: r →
+      iteratorNext h ⟨linkAfter l pre, l⟩ = (⟨linkAfter l (pre ++ [c]), l⟩, r.head?)) := by
   have hld := isList_load hl
-  cases post with
-  | nil => simp only [List.head?_nil] at hld; simp [iteratorNext, hld]
-  | cons c r =>
+  refine ⟨fun e => ?_, fun c r e => ?_⟩
+  · subst e; simp only [List.head?_nil] at hld; simp [iteratorNext, hld]
+  · subst e
     simp only [List.head?_cons] at hld
     simp [iteratorNext, hld, isList_next hl]
 
@@ -386,7 +385,7 @@ theorem containsLoop_refines {h : Heap} {l : Lid} (node : Node) : ∀ (post pre 
     simp only [List.head?_cons, containsLoop]
     by_cases e : c = node
     · subst e; simp
-    · rw [if_neg e, iteratorNext_refines hl]
+    · rw [if_neg e, (iteratorNext_refines hl).2 c r rfl]
       have ih := containsLoop_refines node r (pre ++ [c]) f (by simpa using hl) (by simp at hf; omega)
       simp only [ih]
       have e' : node ≠ c := fun x => e x.symm
@@ -454,7 +453,7 @@ theorem sortedLoop_refines {h : Heap} {l : Lid} (cmp : Node → Node → Int) (n
     obtain ⟨f, rfl⟩ : ∃ f, fuel = f + 1 := ⟨fuel - 1, by simp at hf; omega⟩
     simp only [List.head?_cons, sortedLoop]
     by_cases e : cmp n c ≥ 0
-    · rw [if_pos e, iteratorNext_refines hl]
+    · rw [if_pos e, (iteratorNext_refines hl).2 c r rfl]
       have hex' : ∃ x ∈ r, ¬ cmp n x ≥ 0 := by
         obtain ⟨x, hx, hnx⟩ := hex
         rcases List.mem_cons.1 hx with rfl | hx'
@@ -565,5 +564,445 @@ theorem insert_sorted_stable {cmp : Node → Node → Int} (hp : TotalPreorder c
     · rcases List.mem_cons.1 hb with rfl | hb
       · exact hB a ha
       · exact p3 a ha b hb
+
+/-! ### every history
+
+The simulation relation between the heap model and the abstract sequences, preserved by every
+in-scope call; `N` is the size of the node pool (it only serves to show that `N + 1` loop iterations
+always suffice). -/
+open Librfn.Spec.ListSeq (setList revalidate validIter)
+
+/-- the link an abstract iterator (list, predecessor) denotes -/
+def linkOf (l : Lid) : Option Node → Link
+  | none => .headOf l
+  | some p => .nextOf p
+
+theorem linkAfter_eq_linkOf (l : Lid) (pre : List Node) : linkAfter l pre = linkOf l pre.getLast? := by
+  unfold linkAfter linkOf; cases pre.getLast? <;> rfl
+
+theorem getLast?_upto (xs : List Node) (pred : Option Node) : (upto xs pred).getLast? = pred := by
+  cases pred <;> simp [upto]
+
+theorem linkAfter_upto (l : Lid) (xs : List Node) (pred : Option Node) :
+    linkAfter l (upto xs pred) = linkOf l pred := by
+  rw [linkAfter_eq_linkOf, getLast?_upto]
+
+theorem split_at_pred {p : Node} : ∀ {xs : List Node}, p ∈ xs →
+    xs.takeWhile (· != p) ++ [p] ++ (xs.dropWhile (· != p)).drop 1 = xs
+  | c :: r, hm => by
+    by_cases e : c = p
+    · subst e; simp
+    · have hm' : p ∈ r := by
+        rcases List.mem_cons.1 hm with e' | hm'
+        · exact absurd e'.symm e
+        · exact hm'
+      have ih := split_at_pred hm'
+      have : (c != p) = true := by simpa using e
+      rw [List.takeWhile_cons, List.dropWhile_cons, if_pos this, if_pos this]
+      simp only [List.cons_append]
+      rw [ih]
+
+theorem upto_append_after {xs : List Node} {pred : Option Node} (hv : ∀ p, pred = some p → p ∈ xs) :
+    upto xs pred ++ after xs pred = xs := by
+  cases pred with
+  | none => rfl
+  | some p => exact split_at_pred (hv p rfl)
+
+/-- the simulation relation -/
+structure Rel (N : Nat) (ms : MState) (ss : SState) : Prop where
+  lists : ∀ l, IsList ms.heap l (ss.lists l)
+  disj : ∀ l l', l ≠ l' → ∀ x ∈ ss.lists l, x ∉ ss.lists l'
+  free : ∀ n, Free ss n → ms.heap.next n = none
+  bound : ∀ l, ∀ x ∈ ss.lists l, x < N
+  iters : ∀ k ai, ss.iters k = some ai →
+    ms.iters k = some ⟨linkOf ai.list ai.pred, ai.list⟩ ∧ ∀ p, ai.pred = some p → p ∈ ss.lists ai.list
+
+/-- zero-initialised lists and nodes are empty sequences -/
+theorem rel_init (N : Nat) : Rel N init Librfn.Spec.ListSeq.init :=
+  { lists := fun l => ⟨rfl, by simp [Librfn.Spec.ListSeq.init], by simp [Librfn.Spec.ListSeq.init]⟩
+    disj := fun _ _ _ x hx => by simp [Librfn.Spec.ListSeq.init] at hx
+    free := fun _ _ => rfl
+    bound := fun _ x hx => by simp [Librfn.Spec.ListSeq.init] at hx
+    iters := fun k ai h => by simp [Librfn.Spec.ListSeq.init] at h }
+
+theorem Rel.length_lt {N : Nat} {ms : MState} {ss : SState} (hr : Rel N ms ss) (l : Lid) {fuel : Nat}
+    (hN : N < fuel) : (ss.lists l).length < fuel :=
+  Nat.lt_of_le_of_lt (length_le_of_nodup_lt N _ (hr.lists l).nodup (hr.bound l)) hN
+
+theorem Rel.split {N : Nat} {ms : MState} {ss : SState} (hr : Rel N ms ss) {k : Nat} {ai : AIter}
+    (hai : ss.iters k = some ai) :
+    ms.iters k = some ⟨linkAfter ai.list (upto (ss.lists ai.list) ai.pred), ai.list⟩ ∧
+    IsList ms.heap ai.list (upto (ss.lists ai.list) ai.pred ++ after (ss.lists ai.list) ai.pred) := by
+  obtain ⟨h1, h2⟩ := hr.iters k ai hai
+  rw [linkAfter_upto, upto_append_after h2]
+  exact ⟨h1, hr.lists _⟩
+
+/-- a call that rewrites list `l` (possibly linking in the free node `ins`) re-establishes the relation -/
+theorem rel_update {N : Nat} {ms : MState} {ss : SState} (hr : Rel N ms ss) (l : Lid) (h' : Heap)
+    (newxs touched : List Node) (ins : Option Node)
+    (hl : IsList h' l newxs)
+    (hf : Frame ms.heap h' l touched)
+    (htouched : ∀ x ∈ touched, x ∈ ss.lists l ∨ ins = some x)
+    (hnew : ∀ x ∈ newxs, x ∈ ss.lists l ∨ ins = some x)
+    (hins : ∀ n, ins = some n → Free ss n ∧ n < N ∧ n ∈ newxs)
+    (hgone : ∀ x ∈ ss.lists l, x ∉ newxs → h'.next x = none) :
+    Rel N ⟨h', ms.iters⟩ (revalidate (setList ss l newxs)) := by
+  have hlists : ∀ i, (revalidate (setList ss l newxs)).lists i = if i = l then newxs else ss.lists i := fun _ => rfl
+  refine ⟨fun i => ?_, fun l1 l2 hne x hx => ?_, fun n hfree => ?_, fun i x hx => ?_, fun k ai hai => ?_⟩
+  · rw [hlists]
+    by_cases e : i = l
+    · rw [if_pos e, e]; exact hl
+    · rw [if_neg e]
+      refine isList_frame (hr.lists i) hf e (fun y hy ht => ?_)
+      rcases htouched y ht with h1 | h1
+      · exact hr.disj i l e y hy h1
+      · exact (hins y h1).1 i hy
+  · rw [hlists] at hx ⊢
+    by_cases e1 : l1 = l
+    · have e2 : l2 ≠ l := fun e => hne (e1.trans e.symm)
+      rw [if_pos e1] at hx; rw [if_neg e2]
+      rcases hnew x hx with h1 | h1
+      · exact hr.disj l l2 (fun e => e2 e.symm) x h1
+      · exact (hins x h1).1 l2
+    · rw [if_neg e1] at hx
+      by_cases e2 : l2 = l
+      · rw [if_pos e2]
+        intro hx2
+        rcases hnew x hx2 with h1 | h1
+        · exact hr.disj l1 l e1 x hx h1
+        · exact (hins x h1).1 l1 hx
+      · rw [if_neg e2]; exact hr.disj l1 l2 hne x hx
+  · show h'.next n = none
+    have hnl : n ∉ newxs := by have := hfree l; rwa [hlists, if_pos rfl] at this
+    have hno : ∀ i, i ≠ l → n ∉ ss.lists i := fun i e => by have := hfree i; rwa [hlists, if_neg e] at this
+    by_cases hm : n ∈ ss.lists l
+    · exact hgone n hm hnl
+    · have hfo : Free ss n := fun i => by
+        by_cases e : i = l
+        · rw [e]; exact hm
+        · exact hno i e
+      rw [hf.next n (fun ht => ?_)]
+      · exact hr.free n hfo
+      · rcases htouched n ht with h1 | h1
+        · exact hm h1
+        · exact hnl (hins n h1).2.2
+  · rw [hlists] at hx
+    by_cases e : i = l
+    · rw [if_pos e] at hx
+      rcases hnew x hx with h1 | h1
+      · exact hr.bound l x h1
+      · exact (hins x h1).2.1
+    · rw [if_neg e] at hx; exact hr.bound i x hx
+  · have hai' : (ss.iters k).filter (validIter (revalidate (setList ss l newxs)).lists) = some ai := hai
+    rw [Option.filter_eq_some_iff] at hai'
+    refine ⟨(hr.iters k ai hai'.1).1, fun p hp => ?_⟩
+    have := hai'.2
+    simp only [validIter, hp] at this
+    simpa using this
+
+/-- a call that only (re)positions iterator `k` -/
+theorem rel_setIter {N : Nat} {ms : MState} {ss : SState} (hr : Rel N ms ss) (k : Nat) (ai : AIter)
+    (hv : ∀ p, ai.pred = some p → p ∈ ss.lists ai.list) :
+    Rel N (Librfn.Model.ListHeap.setIter ms k ⟨linkOf ai.list ai.pred, ai.list⟩) (Librfn.Spec.ListSeq.setIter ss k ai) :=
+  { lists := hr.lists, disj := hr.disj, free := hr.free, bound := hr.bound
+    iters := fun k' ai' h => by
+      simp only [Librfn.Spec.ListSeq.setIter] at h
+      simp only [Librfn.Model.ListHeap.setIter]
+      by_cases e : k' = k
+      · rw [if_pos e] at h ⊢
+        cases h
+        exact ⟨rfl, hv⟩
+      · rw [if_neg e] at h ⊢
+        exact hr.iters k' ai' h }
+
+/-- re-storing the value an iterator already holds changes nothing -/
+theorem rel_touch {N : Nat} {ms : MState} {ss : SState} (hr : Rel N ms ss) {k : Nat} {it : Iter}
+    (h : ms.iters k = some it) : Rel N (Librfn.Model.ListHeap.setIter ms k it) ss :=
+  { lists := hr.lists, disj := hr.disj, free := hr.free, bound := hr.bound
+    iters := fun k' ai' h' => by
+      simp only [Librfn.Model.ListHeap.setIter]
+      by_cases e : k' = k
+      · rw [if_pos e, ← h, ← e]; exact hr.iters k' ai' h'
+      · rw [if_neg e]; exact hr.iters k' ai' h' }
+
+theorem traverse_refines {h : Heap} {l : Lid} {xs : List Node} {fuel : Nat} (hl : IsList h l xs)
+    (hf : xs.length < fuel) : traverse fuel h l = some xs :=
+  walk_seg h xs fuel _ hl.chain (Nat.le_of_lt hf)
+
+/-- **one call**: in scope, the model returns what the abstract sequences return and the relation is kept -/
+theorem step_refines {N fuel : Nat} (hN : N < fuel) {ms : MState} {ss : SState} (hr : Rel N ms ss) (op : Op)
+    (hpre : Pre N ss op) :
+    (step fuel ms op).2 = (Librfn.Spec.ListSeq.step ss op).2 ∧
+    Rel N (step fuel ms op).1 (Librfn.Spec.ListSeq.step ss op).1 := by
+  cases op with
+  | insert l n =>
+    obtain ⟨hfree, hlt⟩ := hpre
+    obtain ⟨h', hrun, hl', hf⟩ := insert_refines (hr.lists l) (hfree l) (hr.free n hfree)
+    simp only [step, hrun, Librfn.Spec.ListSeq.step]
+    refine ⟨by first | trivial | rfl, rel_update hr l h' _ _ (some n) hl' hf (fun x hx => Or.inl hx) ?_ ?_ ?_⟩
+    · intro x hx
+      rcases List.mem_append.1 hx with h | h
+      · exact Or.inl h
+      · simp at h; exact Or.inr (by rw [h])
+    · intro m hm; cases hm; exact ⟨hfree, hlt, by simp⟩
+    · intro x hx hnx; exact absurd (List.mem_append_left _ hx) hnx
+  | push l n =>
+    obtain ⟨hfree, hlt⟩ := hpre
+    obtain ⟨h', hrun, hl', hf⟩ := push_refines (hr.lists l) (hfree l) (hr.free n hfree)
+    simp only [step, hrun, Librfn.Spec.ListSeq.step]
+    refine ⟨by first | trivial | rfl, rel_update hr l h' _ _ (some n) hl' hf ?_ ?_ ?_ ?_⟩
+    · intro x hx; simp at hx; exact Or.inr (by rw [hx])
+    · intro x hx
+      rcases List.mem_cons.1 hx with h | h
+      · exact Or.inr (by rw [h])
+      · exact Or.inl h
+    · intro m hm; cases hm; exact ⟨hfree, hlt, by simp⟩
+    · intro x hx hnx; exact absurd (List.mem_cons_of_mem _ hx) hnx
+  | sorted l n cmp =>
+    obtain ⟨hfree, hlt, hp, hs⟩ := hpre
+    obtain ⟨h', hrun, hl', hf⟩ := insertSorted_refines cmp (hr.lists l) (hfree l) (hr.free n hfree) (hr.length_lt l hN)
+    rw [(insert_sorted_stable hp n hs).1] at hl'
+    simp only [step, hrun, Librfn.Spec.ListSeq.step]
+    have hsplit := List.takeWhile_append_dropWhile (p := fun x => decide (cmp n x ≥ 0)) (l := ss.lists l)
+    refine ⟨by first | trivial | rfl, rel_update hr l h' _ _ (some n) hl' hf ?_ ?_ ?_ ?_⟩
+    · intro x hx
+      rcases List.mem_cons.1 hx with h | h
+      · exact Or.inr (by rw [h])
+      · exact Or.inl h
+    · intro x hx
+      unfold Librfn.Spec.ListSeq.insertSorted at hx
+      rcases List.mem_append.1 hx with h | h
+      · exact Or.inl ((List.takeWhile_sublist _).subset h)
+      · rcases List.mem_cons.1 h with h | h
+        · exact Or.inr (by rw [h])
+        · exact Or.inl ((List.dropWhile_sublist _).subset h)
+    · intro m hm; cases hm
+      exact ⟨hfree, hlt, by simp [Librfn.Spec.ListSeq.insertSorted]⟩
+    · intro x hx hnx
+      refine absurd ?_ hnx
+      rw [← hsplit] at hx
+      unfold Librfn.Spec.ListSeq.insertSorted
+      rcases List.mem_append.1 hx with h | h
+      · exact List.mem_append_left _ h
+      · exact List.mem_append_right _ (List.mem_cons_of_mem _ h)
+  | extract l =>
+    have hx := extract_refines (hr.lists l)
+    simp only [step, Librfn.Spec.ListSeq.step]
+    cases hxs : ss.lists l with
+    | nil =>
+      rw [hx.1 hxs]
+      exact ⟨by first | trivial | rfl, hr⟩
+    | cons x r =>
+      obtain ⟨h', hrun, hl', hnx, hf⟩ := hx.2 x r hxs
+      rw [hrun]
+      refine ⟨by first | trivial | rfl, rel_update hr l h' r [x] none hl' hf ?_ ?_ ?_ ?_⟩
+      · intro y hy; simp at hy; exact Or.inl (by rw [hxs, hy]; simp)
+      · intro y hy; exact Or.inl (by rw [hxs]; exact List.mem_cons_of_mem _ hy)
+      · intro m hm; cases hm
+      · intro y hy hny
+        rw [hxs] at hy
+        rcases List.mem_cons.1 hy with h | h
+        · rw [h]; exact hnx
+        · exact absurd h hny
+  | peek l =>
+    simp only [step, Librfn.Spec.ListSeq.step, peek_refines (hr.lists l)]
+    exact ⟨by first | trivial | rfl, hr⟩
+  | empty l =>
+    simp only [step, Librfn.Spec.ListSeq.step, empty_refines (hr.lists l)]
+    exact ⟨by first | trivial | rfl, hr⟩
+  | iterate k l =>
+    simp only [step, Librfn.Spec.ListSeq.step, iterate_refines (hr.lists l)]
+    exact ⟨by first | trivial | rfl, rel_setIter hr k ⟨l, none⟩ (by simp)⟩
+  | next k =>
+    obtain ⟨ai, hai⟩ : ∃ ai, ss.iters k = some ai := by
+      cases h : ss.iters k with
+      | none => exact absurd h hpre
+      | some ai => exact ⟨ai, rfl⟩
+    obtain ⟨hit, hsl⟩ := hr.split hai
+    have hxs := upto_append_after (hr.iters k ai hai).2
+    have hnx := iteratorNext_refines hsl
+    simp only [step, hit, Librfn.Spec.ListSeq.step, hai]
+    cases hpost : after (ss.lists ai.list) ai.pred with
+    | nil =>
+      rw [hnx.1 hpost]
+      exact ⟨by first | trivial | rfl, rel_touch hr hit⟩
+    | cons c r =>
+      rw [hnx.2 c r hpost]
+      refine ⟨by first | trivial | rfl, ?_⟩
+      simp only [linkAfter_snoc]
+      refine rel_setIter hr k ⟨ai.list, some c⟩ (fun p hp => ?_)
+      cases hp
+      rw [← hxs, hpost]; simp
+  | iinsert k n =>
+    obtain ⟨hne, hfree, hlt⟩ := hpre
+    obtain ⟨ai, hai⟩ : ∃ ai, ss.iters k = some ai := by
+      cases h : ss.iters k with
+      | none => exact absurd h hne
+      | some ai => exact ⟨ai, rfl⟩
+    obtain ⟨hit, hsl⟩ := hr.split hai
+    have hxs := upto_append_after (hr.iters k ai hai).2
+    have hn : n ∉ upto (ss.lists ai.list) ai.pred ++ after (ss.lists ai.list) ai.pred := by
+      rw [hxs]; exact hfree ai.list
+    obtain ⟨hl', hf, _⟩ := iteratorInsert_refines hsl hn
+    simp only [step, hit, Librfn.Spec.ListSeq.step, hai]
+    refine ⟨by first | trivial | rfl, rel_update hr ai.list _ _ _ (some n) hl' hf ?_ ?_ ?_ ?_⟩
+    · intro x hx
+      rcases List.mem_cons.1 hx with h | h
+      · exact Or.inr (by rw [h])
+      · exact Or.inl (by rw [← hxs]; exact List.mem_append_left _ h)
+    · intro x hx
+      rcases List.mem_append.1 hx with h | h
+      · exact Or.inl (by rw [← hxs]; exact List.mem_append_left _ h)
+      · rcases List.mem_cons.1 h with h | h
+        · exact Or.inr (by rw [h])
+        · exact Or.inl (by rw [← hxs]; exact List.mem_append_right _ h)
+    · intro m hm; cases hm; exact ⟨hfree, hlt, by simp⟩
+    · intro x hx hnx
+      refine absurd ?_ hnx
+      rw [← hxs] at hx
+      rcases List.mem_append.1 hx with h | h
+      · exact List.mem_append_left _ h
+      · exact List.mem_append_right _ (List.mem_cons_of_mem _ h)
+  | iremove k =>
+    obtain ⟨ai, hai, hne⟩ := hpre
+    obtain ⟨c, r, hpost⟩ := List.exists_cons_of_ne_nil hne
+    obtain ⟨hit, hsl⟩ := hr.split hai
+    have hxs := upto_append_after (hr.iters k ai hai).2
+    rw [hpost] at hsl hxs
+    obtain ⟨h', hrun, hl', hnx, hf⟩ := iteratorRemove_refines hsl
+    simp only [step, hit, hrun, Librfn.Spec.ListSeq.step, hai, hpost]
+    refine ⟨by first | trivial | rfl, rel_update hr ai.list h' _ _ none hl' hf ?_ ?_ ?_ ?_⟩
+    · intro x hx
+      refine Or.inl ?_
+      rw [← hxs]
+      rcases List.mem_cons.1 hx with h | h
+      · rw [h]; simp
+      · exact List.mem_append_left _ h
+    · intro x hx
+      refine Or.inl ?_
+      rw [← hxs]
+      rcases List.mem_append.1 hx with h | h
+      · exact List.mem_append_left _ h
+      · exact List.mem_append_right _ (List.mem_cons_of_mem _ h)
+    · intro m hm; cases hm
+    · intro x hx hnx'
+      rw [← hxs] at hx
+      rcases List.mem_append.1 hx with h | h
+      · exact absurd (List.mem_append_left _ h) hnx'
+      · rcases List.mem_cons.1 h with h | h
+        · rw [h]; exact hnx
+        · exact absurd (List.mem_append_right _ h) hnx'
+  | cur k =>
+    obtain ⟨ai, hai⟩ : ∃ ai, ss.iters k = some ai := by
+      cases h : ss.iters k with
+      | none => exact absurd h hpre
+      | some ai => exact ⟨ai, rfl⟩
+    obtain ⟨hit, hsl⟩ := hr.split hai
+    simp only [step, hit, Librfn.Spec.ListSeq.step, hai, cur_refines hsl]
+    exact ⟨by first | trivial | rfl, hr⟩
+  | contains l n =>
+    simp only [step, contains_refines n (hr.lists l) (hr.length_lt l hN), Librfn.Spec.ListSeq.step]
+    exact ⟨by first | trivial | rfl, hr⟩
+  | find k l n =>
+    simp only [step, contains_refines n (hr.lists l) (hr.length_lt l hN), Librfn.Spec.ListSeq.step]
+    refine ⟨by first | trivial | rfl, ?_⟩
+    rw [linkAfter_eq_linkOf]
+    exact rel_setIter hr k ⟨l, ((ss.lists l).takeWhile (· != n)).getLast?⟩
+      (fun p hp => (List.takeWhile_sublist _).subset (List.mem_of_getLast? hp))
+  | remove l n =>
+    obtain ⟨h', hrun, hl', hnx, _, hf⟩ := remove_refines n (hr.lists l) (hr.length_lt l hN)
+    simp only [step, hrun, Librfn.Spec.ListSeq.step]
+    refine ⟨by first | trivial | rfl, rel_update hr l h' _ _ none hl' hf (fun x hx => Or.inl hx) ?_ ?_ ?_⟩
+    · intro x hx; exact Or.inl (List.mem_of_mem_erase hx)
+    · intro m hm; cases hm
+    · intro x hx hnx'
+      by_cases e : x = n
+      · rw [e]; exact hnx (e ▸ hx)
+      · exact absurd ((List.mem_erase_of_ne e).2 hx) hnx'
+  | dump l =>
+    simp only [step, traverse_refines (hr.lists l) (hr.length_lt l hN), Librfn.Spec.ListSeq.step]
+    exact ⟨by first | trivial | rfl, hr⟩
+  | link n =>
+    simp only [step, Librfn.Spec.ListSeq.step, hr.free n hpre]
+    exact ⟨by first | trivial | rfl, hr⟩
+
+/-- **C09, all histories**: for every sequence of calls of any length, over any number of lists and
+    iterators and a pool of `N` nodes, in which a node is never inserted while it is a member of a list
+    (and iterators are used while valid), every return value of the model of `list.c` — extracted node,
+    found / not found, node after a removal, iterator position, and every full traversal and every
+    `next` of a free node observed anywhere in the history — is the one the abstract sequences give,
+    and the simulation relation holds again at the end -/
+theorem list_history_refines {N fuel : Nat} (hN : N < fuel) : ∀ (ops : List Op) (ms : MState) (ss : SState),
+    Rel N ms ss → InScope N ss ops →
+    (run fuel ms ops).2 = (Librfn.Spec.ListSeq.run ss ops).2 ∧
+    Rel N (run fuel ms ops).1 (Librfn.Spec.ListSeq.run ss ops).1
+  | [], _, _, hr, _ => ⟨rfl, hr⟩
+  | op :: ops, ms, ss, hr, hs => by
+    obtain ⟨ho, hr'⟩ := step_refines hN hr op hs.1
+    obtain ⟨ho', hr''⟩ := list_history_refines hN ops _ _ hr' hs.2
+    simp only [run, Librfn.Spec.ListSeq.run]
+    exact ⟨by rw [ho, ho'], hr''⟩
+
+/-- from zero-initialised lists and nodes -/
+theorem list_history_refines_init {N fuel : Nat} (hN : N < fuel) (ops : List Op)
+    (hs : InScope N Librfn.Spec.ListSeq.init ops) :
+    (run fuel init ops).2 = (Librfn.Spec.ListSeq.run Librfn.Spec.ListSeq.init ops).2 :=
+  (list_history_refines hN ops _ _ (rel_init N) hs).1
+
+/-- what the relation means for an observer, at any point of any in-scope history: every list
+    traverses to its abstract sequence, every node outside all lists has `next = NULL` (so it can be
+    inserted anywhere at once), and inserting never dereferences a stale tail -/
+theorem rel_observations {N fuel : Nat} (hN : N < fuel) {ms : MState} {ss : SState} (hr : Rel N ms ss) :
+    (∀ l, traverse fuel ms.heap l = some (ss.lists l)) ∧
+    (∀ n, Free ss n → ms.heap.next n = none) ∧
+    (∀ l n, Free ss n → ∃ h', Librfn.Model.ListHeap.insert ms.heap l n = .ok h') :=
+  ⟨fun l => traverse_refines (hr.lists l) (hr.length_lt l hN), hr.free,
+   fun l n hf => by
+     obtain ⟨h', hrun, _⟩ := insert_refines (hr.lists l) (hf l) (hr.free n hf)
+     exact ⟨h', hrun⟩⟩
+
+/-- comparing integer keys (what the harness and the scheduler's due-time comparison do) is a total preorder -/
+theorem keyCmp_totalPreorder (key : Node → Int) : TotalPreorder (fun a b => key a - key b) :=
+  ⟨fun a b => by omega, fun a b c => by omega⟩
+
+/-! ### non-vacuity -/
+
+/-- the state left by `list_iterator_remove` of the only node — `tail` = bogus "address of head" — is a
+    well-formed empty list, and so is one whose tail still names a node that has left -/
+example : IsList ⟨fun _ => none, fun _ => none, fun _ => .listAsNode 0⟩ 0 [] := ⟨rfl, by simp, by simp⟩
+example : IsList ⟨fun _ => none, fun _ => none, fun _ => .node 5⟩ 0 [] := ⟨rfl, by simp, by simp⟩
+
+/-- a three-node list next to two empty lists with stale tails -/
+example :
+    let h0 : Heap := ⟨fun i => if i = 1 then some 2 else if i = 2 then some 3 else none,
+                      fun l => if l = 0 then some 1 else none,
+                      fun l => if l = 0 then .node 3 else if l = 1 then .node 2 else .listAsNode l⟩
+    IsList h0 0 [1, 2, 3] ∧ IsList h0 1 [] ∧ IsList h0 2 [] :=
+  ⟨⟨⟨rfl, rfl, rfl, rfl⟩, by decide, by simp⟩, ⟨rfl, by simp, by simp⟩, ⟨rfl, by simp, by simp⟩⟩
+
+/-- the scope of `list_history_refines` is inhabited by histories that empty a list through an
+    iterator (bogus tail), push and insert into it again, and insert sorted into another list -/
+example : InScope 8 Librfn.Spec.ListSeq.init
+    [.insert 0 1, .iterate 0 0, .iremove 0, .push 0 2, .insert 0 1,
+     .sorted 1 3 (fun a b => (a / 2 : Nat) - (b / 2 : Nat)), .dump 0] := by
+  simp [InScope, Pre, Free, Librfn.Spec.ListSeq.step, Librfn.Spec.ListSeq.init, Librfn.Spec.ListSeq.setList,
+    Librfn.Spec.ListSeq.setIter, Librfn.Spec.ListSeq.revalidate, Librfn.Spec.ListSeq.validIter,
+    Librfn.Spec.ListSeq.after, Librfn.Spec.ListSeq.upto, Sorted]
+  refine ⟨fun l => ?_, fun l => ?_, ⟨fun a b => by omega, fun a b c => by omega⟩⟩
+  · by_cases e : l = 0 <;> simp [e]
+  · by_cases e : l = 0 <;> simp [e]
+
+/-- … and on it the model computes what a sequence would (stale-tail states included) -/
+example : (run 9 init [.insert 0 1, .iterate 0 0, .iremove 0, .push 0 2, .insert 0 1, .extract 0,
+      .remove 0 1, .insert 0 3, .sorted 0 2 (fun a b => (a / 2 : Nat) - (b / 2 : Nat)), .dump 0, .link 1]).2
+    = [.unit, .node (some 1), .node none, .unit, .unit, .node (some 2), .bool true, .unit, .unit,
+       .nodes [3, 2], .node none] := by decide
+
+/-- the sorted-insert theorem's hypotheses hold for a list with equal keys, and the new node goes
+    after its equals: keys 0,0,1,1,… for nodes 0,1,2,3,… -/
+example : Sorted (fun a b => (a / 2 : Nat) - (b / 2 : Nat)) [1, 0, 2] ∧
+    Librfn.Spec.ListSeq.insertSorted (fun a b => (a / 2 : Nat) - (b / 2 : Nat)) 3 [1, 0, 2] = [1, 0, 2, 3] ∧
+    Librfn.Spec.ListSeq.insertSorted (fun a b => (a / 2 : Nat) - (b / 2 : Nat)) 0 [1, 2] = [1, 0, 2] := by
+  refine ⟨by simp [Sorted], by decide, by decide⟩
 
 end Librfn.C09
